@@ -4,7 +4,7 @@ Each statement is printed by Coq itself (Check), so the file repeats every state
 Run from /verif/coq after the development has been compiled:  python3 ../tools/mkprops.py [Cxx ...]"""
 import subprocess, sys, re, os
 
-IMP = "Model Sem InvDb InvSwap InvMint InvMelt Corollaries Queries Footprint HRel Global GlobalQuote GlobalValue GlobalErr GlobalQuery GlobalMelt GlobalKeys Cuts CutOrder Conc Races GlobalBalance GlobalLedger Reconf"
+IMP = "Model Sem InvDb InvSwap InvMint InvMelt Corollaries Queries Footprint HRel Global GlobalQuote GlobalValue GlobalErr GlobalQuery GlobalMelt GlobalKeys Cuts CutOrder Conc Races GlobalBalance GlobalLedger Reconf Trace Admin AdminProofs"
 
 GLOSSARY = """   Reading guide (definitions in coq/Mint/*.v):
      world            = store (tables spent/pending/signatures/mint quotes/melt quotes/keysets) + Lightning environment
@@ -30,7 +30,7 @@ PROPS = {
    'reach_good', 'at_most_once', 'concurrent_at_most_once', 'locked_or_spent_refused', 'swap_melt_race',
    'swap_rejects_represented', 'swap_rejects_duplicate', 'melt_rejects_represented']),
  'C02': ("No inflation: outstanding ecash plus Lightning outflow never exceeds inflow", [
-   'no_inflation_ledger', 'ledger_history_ok', 'no_inflation', 'no_inflation_reconf', 'swap_cut_signatures_imply_spent', 'swap_balanced', 'mint_within_quote', 'melt_burns_enough', 'validated_covers',
+   'no_inflation_ledger', 'ledger_history_ok', 'no_inflation', 'no_inflation_reconf', 'no_inflation_ledger_reconf', 'swap_cut_signatures_imply_spent', 'swap_balanced', 'mint_within_quote', 'melt_burns_enough', 'validated_covers',
    'melt_fee_limit', 'melt_fee_limit_mpp', 'request_melt_quote_fee']),
  'C03': ("A mint quote is issued at most once per payment, never before it is paid", [
    'quote_issued_at_most_once_per_payment', 'internal_credits_are_melts', 'step_qinv', 'mint_needs_payment', 'mint_within_quote', 'mint_once',
@@ -44,16 +44,16 @@ PROPS = {
  'C07': ("Mint crash consistency: a crash at any point never inflates or strands value", [
    'hrun_inv', 'hrun_ext', 'reconf_inv', 'reconf_ext', 'only_op', 'cut_keeps_keysets', 'cut_keeps_quotes', 'cut_signs_only_when_issuing',
    'keysets_never_lost', 'quotes_never_altered', 'spent_stays_refused', 'stored_signature_stays_restorable',
-   'request_run_never_panics', 'swap_cut_signatures_imply_spent', 'swap_ordered', 'mint_ordered', 'melt_ordered',
+   'request_run_never_panics', 'step_log_step', 'step_crash_log_step', 'swap_cut_signatures_imply_spent', 'swap_ordered', 'mint_ordered', 'melt_ordered',
    'crash_in_settle_inflates', 'crash_in_swap_strands', 'crash_in_mint_strands', 'crash_in_rotate_bricks']),
  'C09': ("Keyset lifecycle: deterministic keys, one active keyset, old ecash stays valid", [
-   'one_active_keyset', 'keysets_never_lost', 'reconf_keeps_keysets', 'cut_keeps_keysets', 'rotate_spec', 'load_spec',
-   'swap_signs_active_only', 'check_outputs_active', 'tx_fees_per_keyset']),
+   'one_active_keyset', 'keysets_never_lost', 'reconf_keeps_keysets', 'admin_rotate_is_rotate', 'admin_rotate_bad_fee', 'admin_readonly', 'cut_keeps_keysets', 'rotate_spec', 'load_spec',
+   'swap_signs_active_only', 'check_outputs_active', 'tx_fees_per_keyset', 'tx_fees_wrapping_refuted']),
  'C15': ("State check and restore tell the truth about everything the mint ever did", [
    'check_state_general', 'check_state_exact', 'signatures_are_exactly_what_was_returned', 'restore_is_exact', 'restore_exact',
    'restore_finds_issued', 'state_of_spent_forever', 'sig_forever']),
  'C16': ("Reported balances are exact and configured limits are enforced", [
-   'balance_never_negative', 'step_bi', 'binv_bound', 'honest_history_ok',
+   'balance_never_negative', 'step_bi', 'binv_bound', 'honest_history_ok', 'admin_total_is_total_balance', 'admin_issued_view', 'admin_redeemed_view',
    'issued_view_total', 'redeemed_view_total', 'total_balance_exact', 'signatures_are_exactly_what_was_returned',
    'mint_limit_enforced', 'melt_limit_enforced', 'balance_limit_enforced', 'huge_quote_refused', 'info_disabled_iff']),
 }
